@@ -608,6 +608,33 @@ def final_C18(seq, cfg, ctx, build_device, rng):
 
 
 # --------------------------------------------------------------------------
+def final_C15(seq, cfg, ctx, build_device, rng):
+    """phase-drift bookkeeping (drift histories only: every EOM control and EOM pulse asks for the correction, no other phase shifts):
+    once the last EOM block is closed, the phase reference of the channel's targets equals, modulo 2 pi, the phase accumulated by the
+    programmed detuning outside real pulses - i.e. the integral of the detuning over every detuned delay / buffer of the channel."""
+    out = []
+    if not cfg.get("all_drift") or seq.is_parametrized():
+        return out
+    for name, cs in seq._schedule.items():
+        if not cs.eom_blocks or cs.eom_blocks[-1].tf is None:
+            continue
+        ch = cs.channel_obj
+        acc = 0.0
+        for s in cs.slots:
+            if isinstance(s.type, Pulse) and cs.is_detuned_delay(s.type):
+                det = np.asarray(s.type.detuning.samples.as_array(detach=True), dtype=float)
+                acc += float(det.sum()) * 1e-3
+        tg = sorted(cs.slots[-1].targets)
+        for q in tg[:1]:
+            ref = float(seq.current_phase_ref(q, ch.basis))
+            d = (ref - acc) % TWO_PI
+            d = min(d, TWO_PI - d)
+            if d > 1e-6:
+                out.append((f"{name}: with phase-drift correction everywhere, the phase reference {ref:.6f} differs from the phase accumulated by the off-detuning "
+                            f"outside pulses {acc % TWO_PI:.6f} by {d:.6f} rad", {"channel": name}))
+    return out
+
+
 def final_C06(seq, cfg, ctx, build_device, rng):
     """sampling renders the schedule exactly (independent re-rendering from the slots)"""
     from pulser.sampler import sample
